@@ -140,6 +140,13 @@ class Gen:
                 self.emit('%s d0, d0, %s' % (op, imm))
             else:
                 self.emit('%s d0, %s, d1' % (op, imm)) if op != 'ddiv' else self.emit('ddiv d0, d0, %s' % imm)
+        if r.random() < 0.5:     # both operands whole-valued immediates (must stay floating constants in C)
+            self.emit('%s d2, %s, %s' % (r.choice(['ddiv', 'dmul', 'dsub', 'dadd']), r.choice(['1.0', '3.0', '7.0', '10.0']),
+                                        r.choice(['4.0', '2.0', '8.0', '3.0'])))
+            self.emit('dadd d0, d0, d2')
+            self.emit('%s f1, %s, %s' % (r.choice(['fdiv', 'fmul', 'fsub']), r.choice(['1.0f', '5.0f']), r.choice(['4.0f', '2.0f', '3.0f'])))
+            self.emit('f2d d2, f1')
+            self.emit('dadd d0, d0, d2')
         self.emit('dmov d1, d0')
         c = r.random()
         if c < 0.3:
@@ -376,6 +383,15 @@ class Gen:
         self.acc('t9')
         regs = ['a', 'b', 't0', 't1', 't2', 't3']
         self.block(regs, 2, r.randint(6, 14), top=True)
+        for name, size, cells, wr in self.sections:      # every section byte for byte: layout, padding, initialisers
+            self.lines.append('# ---')
+            self.emit('mov p0, %s' % name)
+            self.emit('call p_extp, ext_p, t9, p0, %d' % size)
+            for off, ty in cells[:3]:
+                if ty in ('f', 'd'):
+                    continue
+                self.emit('mov t9, %s:%d(p0)' % (ty, off))
+                self.acc('t9')
         self.lines.append('# ---')
         self.emit('ret acc')
         self.emit('endfunc')
